@@ -133,6 +133,44 @@ func (e *Engine) encapObligations(prop string) []*Obligation {
 			if fn.Blocks == nil || fn.Synthetic != "" || !e.isOwner(p, pkgOfFn(fn)) {
 				continue
 			}
+			if allowed, ok := e.internal[fn.String()]; ok {
+				// callable only from the listed packages: checked on the call graph
+				var bad []string
+				for _, g := range e.allFuncs {
+					if !e.inModule(g) || g.Blocks == nil {
+						continue
+					}
+					gp := pkgOfFn(g)
+					okPkg := false
+					for _, a := range allowed {
+						if a == gp {
+							okPkg = true
+						}
+					}
+					if okPkg {
+						continue
+					}
+					for _, b := range g.Blocks {
+						for _, ins := range b.Instrs {
+							if c, isCall := ins.(ssa.CallInstruction); isCall {
+								if callee, isFn := c.Common().Value.(*ssa.Function); isFn && callee == fn {
+									bad = append(bad, g.String())
+								}
+							}
+						}
+					}
+				}
+				goal := "true"
+				desc := "declared internal: called only from " + strings.Join(allowed, ", ")
+				if len(bad) > 0 {
+					goal = "false"
+					desc += "; but also called from " + strings.Join(bad, ", ")
+				}
+				ob := &Obligation{Name: fn.String() + "/encap:internal#0", Kind: "encap", Func: fn.String(), Goal: goal, Desc: desc, Claimed: true}
+				sc.oblige(ob)
+				out = append(out, ob)
+				continue
+			}
 			if ct := e.contracts[fn.String()]; ct != nil {
 				continue // verified against its own contract
 			}
